@@ -80,6 +80,10 @@ class CosSinCacheFusion(pattern.RewriteRuleClassBase):
             inv_freq = op.Reshape(inv_freq, op.Constant(value_ints=[1, -1]))
             max_pos_id = op.ReduceMax(position_ids, keepdims=0)
             max_pos_id = op.Add(max_pos_id, op.Constant(value_int=1))
+            # ORT's RotaryEmbedding refuses a cache with fewer rows than the sequence length
+            # (position ids may repeat or be padded, so max + 1 can be smaller).
+            seq_len = op.Squeeze(op.Shape(position_ids, start=-1))
+            max_pos_id = op.Max(max_pos_id, seq_len)
             pos_id_range = op.Range(
                 op.Constant(value_int=0),
                 max_pos_id,
